@@ -64,9 +64,20 @@ type VerifShard struct {
 // VerifOpenShard opens (creating or recovering) a ts-store shard rooted at dir. walParts > 0
 // forces the number of WAL partitions (there is no configuration option for it).
 func VerifOpenShard(dir string, walParts int) (v *VerifShard, err error) {
+	// Whatever was opened before a failure is closed again: the background mergers of a series
+	// index left open would go on working in a directory the caller is about to remove.
+	var opened []func()
 	defer func() {
 		if r := recover(); r != nil {
 			err = fmt.Errorf("panic while opening shard: %v", r)
+		}
+		if err != nil {
+			for i := len(opened) - 1; i >= 0; i-- {
+				func() {
+					defer func() { _ = recover() }()
+					opened[i]()
+				}()
+			}
 		}
 	}()
 	const db, rp = "db0", "rp0"
@@ -96,11 +107,19 @@ func VerifOpenShard(dir string, walParts int) (v *VerifShard, err error) {
 		return nil, err
 	}
 	primary.SetIndexBuilder(ib)
+	closePrimary := true
+	opened = append(opened, func() {
+		if closePrimary {
+			_ = primary.Close()
+		}
+	})
 	rel, err := tsi.NewIndexRelation(opts, primary, ib)
 	if err != nil {
 		return nil, err
 	}
 	ib.Relations[uint32(index.MergeSet)] = rel
+	closePrimary = false // from here on the builder closes it
+	opened = append(opened, func() { _ = ib.Close() })
 	if err = ib.Open(); err != nil {
 		return nil, err
 	}
@@ -124,9 +143,8 @@ func VerifOpenShard(dir string, walParts int) (v *VerifShard, err error) {
 		sh.wal = NewWAL(walPath, &lockPath, sid.ShardID, o.WalSyncInterval, o.WalEnabled, o.WalReplayParallel, walParts, o.WalReplayBatchSize)
 	}
 	sh.indexBuilder = ib
+	opened = append(opened, func() { _ = sh.Close() })
 	if err = sh.OpenAndEnable(nil); err != nil {
-		_ = sh.Close()
-		_ = ib.Close()
 		return nil, err
 	}
 	return &VerifShard{sh: sh, ib: ib, Dir: dir}, nil
